@@ -49,6 +49,12 @@ func applyRefineCall(b *cty.RefinementBuilder, call J) {
 		b.CollectionLengthUpperBound(asI(call["k"]))
 	case "PrefixFull":
 		b.StringPrefixFull(joinRunes(asL(call["p"])))
+	case "PrefixSafe":
+		b.StringPrefix(joinRunes(asL(call["p"])))
+	case "LenExact":
+		b.CollectionLength(asI(call["k"]))
+	case "RangeIncl":
+		b.NumberRangeInclusive(ConcretizeNum(asJ(call["lo"]), 0), ConcretizeNum(asJ(call["hi"]), 0))
 	default:
 		panic("harness: unknown refine call")
 	}
